@@ -32,7 +32,7 @@ def make_model(kind, seed):
     fp = FP()
     li = families.op_leaky(fp)
     li.vars['u'] = ('input', F(0))
-    o1 = families.op_two_inputs(fp)
+    o1 = families.op_two_inputs(fp, x='v') if (kind == 'xcoupling' and seed % 2 == 0) else families.op_two_inputs(fp)
     o1.vars['u'] = ('input', F(0))
     o1.vars['w'] = ('input', F(0))
     # coupling operators: the last program of each batch keeps a constant inside the coupling operator (rejected
@@ -53,11 +53,13 @@ def make_model(kind, seed):
     lo = 1 if (kind in ('matrix', 'scalar') or seed % 5 == 4) else 2
     na = rnd.randint(lo, 3)
     nb = rnd.randint(lo, 3)
+    if kind == 'xcoupling' and seed % 4 < 2:
+        nb = na          # equally sized populations: a source/target mix-up stays shape-consistent
 
     def pvals(n):
         return [fp() for _ in range(n)]
     pops = {'a': Pop(['li'], na, {'li/x': pvals(na), 'li/tau': pvals(na)}),
-            'b': Pop(['o1'], nb, {'o1/x': pvals(nb), 'o1/k': pvals(nb), 'o1/g': fp(), 'o1/c': pvals(nb)})}
+            'b': Pop(['o1'], nb, {f'o1/{o1.output}': pvals(nb), 'o1/k': pvals(nb), 'o1/g': fp(), 'o1/c': pvals(nb)})}
 
     def Wm(nt, ns, density=0.7, signed=True):
         M = []
@@ -84,8 +86,15 @@ def make_model(kind, seed):
     elif kind == 'coupling':
         conns.append(Conn('a/li/x', 'a/li/u', Wm(na, na), edge='ce', var_map={'pre': 'source', 'post': 'a/li/x'}))
         conns.append(Conn('a/li/x', 'b/o1/u', Wm(nb, na), edge='c1', var_map={'pre': 'source'}))
+    elif kind == 'xcoupling':
+        # coupling between two different populations whose operator reads a variable of the TARGET unit; every other
+        # program gives the target variable a name of its own (v) so that it cannot be mistaken for the source's x
+        post = 'b/o1/v' if seed % 2 == 0 else 'b/o1/x'
+        conns.append(Conn('a/li/x', 'b/o1/u', Wm(nb, na), edge='ce', var_map={'pre': 'source', 'post': post}))
+        conns.append(Conn('b/o1/' + post.rsplit('/', 1)[1], 'a/li/u', Wm(na, nb)))
     elif kind == 'delay':
-        conns.append(Conn('a/li/x', 'b/o1/u', Wm(nb, na), delay=DT * rnd.choice([2, 3])))
+        # multiples of the step and off-grid values (2.625 and 2.6 steps round to 3, 2.375 to 2)
+        conns.append(Conn('a/li/x', 'b/o1/u', Wm(nb, na), delay=DT * rnd.choice([2, 3, F(21, 8), F(13, 5), F(19, 8)])))
         conns.append(Conn('b/o1/x', 'a/li/u', Wm(na, nb)))
     elif kind == 'spread':
         d, s = rnd.choice([(F(1, 2), F(1, 4)), (F(1), F(2, 3)), (F(1), F(1, 2)), (F(1, 2), F(1, 2))])
@@ -192,13 +201,13 @@ def run(tier='quick', seed=0, only=None, verbose=False):
         assumptions=['reals for floats', 'dynamic (state-bearing) coupling edges are not generated yet',
                      'zero matrix entries mean no edge'])
     jobs = []
-    kinds = ['matrix', 'scalar', 'coupling', 'delay', 'spread']
+    kinds = ['matrix', 'scalar', 'coupling', 'xcoupling', 'delay', 'spread']
     n = 4 if tier == 'quick' else 30
     for kind in kinds:
         for i in range(n):
             jobs.append(dict(key=f"pop:{kind}:{seed}:{i}|population", kind=kind, seed=seed * 100 + i, build='population',
                              vectorize=True, spec=None))
-            if i < (2 if tier == 'quick' else 10) and kind != 'coupling':
+            if i < (2 if tier == 'quick' else 10) and kind not in ('coupling', 'xcoupling'):
                 for vec in (True, False):
                     jobs.append(dict(key=f"pop:{kind}:{seed}:{i}|explicit|vec={vec}", kind=kind, seed=seed * 100 + i,
                                      build='explicit', vectorize=vec, spec=None))
